@@ -302,6 +302,21 @@ class FlatFn:
             return None
         return r[0] if r else None
 
+    def _own_method(self, name):
+        """the class of the analysed method (or one of its bases) defines a method `name`"""
+        q = getattr(self.orig, "_qualname", "")
+        if "." not in q:
+            return False
+        cq = q.split(".<locals>.")[0].rsplit(".", 1)[0]
+        mod = self.repo.module(self.modname)
+        cls = mod.classes.get(cq)
+        if cls is None:
+            return False
+        try:
+            return name in self.repo.methods(mod, cls)
+        except Exception:
+            return any(isinstance(x, ast.FunctionDef) and x.name == name for x in cls.body)
+
     @classmethod
     def _is_pure(cls, callee):
         """the helper neither stores into nor calls a mutating method on anything but its own fresh locals"""
@@ -324,6 +339,9 @@ class FlatFn:
                      "sort", "clear", "update", "copy", "setdefault", "index", "count", "push", "empty", "union", "find", "connected", "format", "join",
                      "startswith", "endswith", "fromkeys", "difference", "intersection", "issubset", "log", "debug", "info", "warning", "traverse", "compute",
                      "has_attribute", "get_attribute", "create_attribute", "front"}
+
+    CONTAINER_METHODS = {"append", "appendleft", "add", "pop", "popleft", "get", "items", "keys", "values", "extend", "remove", "discard", "insert", "reverse",
+                         "sort", "clear", "update", "copy", "setdefault", "index", "count", "push", "union", "find", "connected", "empty"}
 
     def residue(self, node, known=()):
         """what the rules cannot see through below `node`: calls of helpers that were not inlined (and are not provably free of effects),
@@ -367,8 +385,8 @@ class FlatFn:
                 elif isinstance(f, ast.Attribute):
                     r = f.value
                     if isinstance(r, ast.Name) and r.id in ("self", "cls"):
-                        if f.attr in self.KNOWN_METHODS:
-                            continue
+                        if f.attr in self.KNOWN_METHODS and not (f.attr in self.CONTAINER_METHODS and (self._callee(c) is not None or self._own_method(f.attr))):
+                            continue        # (a method of the class itself that is merely *named* like a container method is not transparent)
                         callee = self._callee(c)
                         if callee is not None and self._is_pure(callee):
                             continue
